@@ -148,6 +148,7 @@ func vclockWithin(d int64)              {}
 func vclockFreeze()                     {}
 func vsymbolic() bool                   { return true }
 func vreadvPush(n int)                  {}
+func vfetchPush(id int)                 {}
 func vfdWrites() int                    { return 0 }
 func vfdWrite(i int) []byte             { return nil }
 `
@@ -257,6 +258,7 @@ func vclockWithin(d int64)    {}
 func vclockFreeze()           {}
 func vsymbolic() bool         { return false }
 func vreadvPush(n int)        {}
+func vfetchPush(id int)       {}
 func vfdWrites() int          { return 0 }
 func vfdWrite(i int) []byte   { return nil }
 func vparam(name string, def int) int {
